@@ -58,10 +58,23 @@ def main():
         env = dict(os.environ)
         env["PHYST_VERIF_SRC"] = os.path.join(copy, "src")
         env["PYTHONPATH"] = os.path.join(copy, "src")
+        demo = os.path.join(os.path.dirname(patch), "demo.py")
+        results = {"demo_on_original": None, "demo_on_mutant": None, "tests_on_mutant": None, "checks": {}}
+        if os.path.exists(demo):
+            env0 = dict(os.environ)
+            env0["PYTHONPATH"] = "/repo/src"
+            r0 = subprocess.run(["/venv/bin/python", "-B", demo], env=env0, capture_output=True, text=True, cwd=tmp)
+            r1 = subprocess.run(["/venv/bin/python", "-B", demo], env=env, capture_output=True, text=True, cwd=tmp)
+            results["demo_on_original"] = r0.returncode
+            results["demo_on_mutant"] = r1.returncode
+            print(f"demo: original rc={r0.returncode} mutant rc={r1.returncode}  {(r1.stderr.strip().splitlines() or [''])[-1][:160]}")
+            if r0.returncode != 0 or r1.returncode == 0:
+                print("  DEMO DOES NOT DISCRIMINATE", r0.stderr[-300:])
+                rc_all = 5
         if a.tests:
             t0 = time.time()
             r = subprocess.run(
-                ["/venv/bin/python", "-B", "-m", "pytest", "-q", "-x", "-p", "no:cacheprovider", "--timeout=900", "-n", "8"],
+                ["/venv/bin/python", "-B", "-m", "pytest", "-q", "-p", "no:cacheprovider", "--timeout=900"],
                 cwd=copy, env=env, capture_output=True, text=True)
             if r.returncode != 0 and "unrecognized arguments: -n" in (r.stderr + r.stdout):
                 r = subprocess.run(
@@ -69,6 +82,7 @@ def main():
                     cwd=copy, env=env, capture_output=True, text=True)
             tail = (r.stdout.strip().split("\n") or [""])[-1]
             print(f"tests on mutant: rc={r.returncode} {tail} ({time.time() - t0:.0f}s)")
+            results["tests_on_mutant"] = tail
             if r.returncode != 0:
                 fails = [l for l in r.stdout.split("\n") if l.startswith("FAILED")]
                 # the two known flaky polars tests are tolerated
@@ -91,8 +105,12 @@ def main():
                     print("    " + l[:220])
                 if r.returncode == 2:
                     print(r.stderr[-1500:])
+                results["checks"][f"{c}@seed{seed}"] = verdict
                 if r.returncode != 1:
                     rc_all = rc_all or 1
+        if os.path.exists(mp) and (a.tests or results["checks"]):
+            meta.setdefault("ran", {}).update({k: v for k, v in results.items() if v not in (None, {})})
+            json.dump(meta, open(mp, "w"), indent=1)
     finally:
         if not a.keep:
             shutil.rmtree(tmp, ignore_errors=True)
